@@ -1205,7 +1205,23 @@ pub fn run(ctx: &Ctx) -> i32 {
     let mut depth_done = 0;
     let mut cap_hit = false;
     let mut per_depth = vec![];
+    // thorough: the third level is expanded from a fixed, hash-ordered subset of the depth-2 states (a full third level
+    // is 50 M transitions on the real VM, 90 minutes); the bound claimed stays depth 2, the rest is reported as extra
+    let last_level_states: usize = std::env::var("C14_LEVEL3_STATES").ok().and_then(|s| s.parse().ok()).unwrap_or(20_000);
+    let mut beyond_bound: Option<(usize, usize)> = None;
     for depth in 0..max_depth {
+        if depth >= 2 && frontier.len() > last_level_states {
+            let total = frontier.len();
+            let hk = |m: &MS| {
+                use std::hash::{Hash, Hasher};
+                let mut h = std::collections::hash_map::DefaultHasher::new();
+                m.hash(&mut h);
+                h.finish()
+            };
+            frontier.sort_by_cached_key(|m| hk(m));
+            frontier.truncate(last_level_states);
+            beyond_bound = Some((last_level_states, total));
+        }
         let n = frontier.len() as u64;
         let fr = &frontier;
         let ops_ref = &ops;
@@ -1260,7 +1276,7 @@ pub fn run(ctx: &Ctx) -> i32 {
                 new_frontier.push(to);
             }
         }
-        depth_done = depth + 1;
+        depth_done = if beyond_bound.is_some() { depth } else { depth + 1 };
         per_depth.push(json!({"depth": depth + 1, "states_expanded": n, "new_states": new_frontier.len()}));
         frontier = new_frontier;
         if frontier.is_empty() || cap_hit {
@@ -1559,6 +1575,9 @@ pub fn run(ctx: &Ctx) -> i32 {
     rep.extra("per_depth", json!(per_depth));
     rep.extra("operation_instances_in_alphabet", json!(ops.len()));
     rep.extra("state_cap_hit", json!(cap_hit));
+    if let Some((k, total)) = beyond_bound {
+        rep.extra("beyond_the_bound", json!(format!("level {} expanded from {} of the {} states of the level before (hash order); not part of the exhaustive claim", depth_done + 1, k, total)));
+    }
     rep.rule = format!(
         "Breadth-first search to depth {} from 9 initial pools over a reference store model: 4 named slots holding scalars (0 1 a #t () #\\x, small integers) or references into a store of pairs and vectors (spine <= 3, vector length <= 3, <= 8 objects, acyclic), canonicalised by renaming locations in first-visit order and dropping unreachable objects (sound because the language cannot observe addresses). Alphabet: {} operation instances over the slots (cons car cdr set-car! set-cdr! list length append reverse list-tail list-ref memq memv member assq assv assoc map (3 procedures, 1 and 2 lists) for-each (1 and 2 lists) list? vector make-vector vector-length vector-ref vector-set! vector-fill! vector->list list->vector vector-copy (with start) vector-copy! (at, start, end incl. overlapping) equal?, apply with individual arguments before the list, and moves), indices from -1..len+1 and 2^62; an instance is enabled only where R7RS fixes the outcome. Every transition is executed on the real VM: the state is built from its canonical form, the operation applied, and the result (value vs required error) and the whole pool afterwards compared with the model: contents by value (also through equal? against the pool read as a literal, both ways round), identity by writing a marker through each object in turn and comparing which paths show it; the pool is also given to write and display and the datum that reaches the output must print like the dump. Large structures: equal? / member / assoc on lists and vectors of 10 .. 300 rows with the same row object on one side and separately allocated rows on the other (16 checks x 6 sizes). Stored values: 21 storing / copying expressions (vector-fill! also twice in a row and over the unfilled default, vector-set!, set-car!, set-cdr!, vector-copy!, make-vector, list->vector, vector->list, append, reverse, map, vector-copy, list-tail, list-ref, vector-ref, apply) x every ordered pair of 17 scalars (0 0.0 -0.0 1 1.0 -1 1/2 0.5 2 2.0 10^20 1e20 a \"s\" #\\x #t ()) x each produced as a literal or as the car of a fresh list, compared in written form so that exactness and the sign of zero show. Histories: from each initial pool every enabled operation followed, on the same objects and without rebuilding, by every operation that reads the first one's destination (or any operation after a mutator), with the same oracles. Shortest paths of a sub-set of states are replayed from the initial pool in a fresh VM (state reached by operations = state built directly). Non-trivial = a transition whose outcome and full pool observation agreed.",
         depth_done, ops.len()
